@@ -44,6 +44,17 @@ theorem c09_history (cfg : Cfg) (susp : Bool) (probes : List Str) (nsvc : Nat) (
     ok (modelTraceS cfg susp probes nsvc [] hist) = true :=
   history_from cfg susp probes nsvc hist hw [] List.nodup_nil
 
+/-- the driver's diagnostic walk is the judge: a trace is accepted iff no step is reported -/
+theorem ok_iff_no_first_bad (exp : PyDict Str Nat) (l : List Step) (i : Nat) :
+    okFrom exp l = (firstBadFrom exp l i).isNone := by
+  induction l generalizing exp i with
+  | nil => rfl
+  | cons s r ih =>
+    simp only [okFrom, firstBadFrom]
+    by_cases h : stepOk exp s = true
+    · simp only [h, Bool.true_and, if_true]; exact ih _ _
+    · simp [h]
+
 /-- in the non-suspending model the fallback SUBSCRIBE immediately follows its refused renewal, and an
     unreachable renewal is never followed by a fresh SUBSCRIBE for its service -/
 theorem fallback_adjacent_sequential (cfg : Cfg) (rt : Routing) (c : Call) (rs : List Reaction)
